@@ -1,11 +1,298 @@
-"""C09 — rules not implemented yet (fail closed)."""
-EXPLANATION = "not implemented"
-NOT_DECIDED = "everything"
+"""C09 — Vector operations are the component-wise lifting of Array operations."""
+from __future__ import annotations
+
+import ast
+
+from ..flow import enumerate_paths
+from ..peval import Unsupported
+from ..poly import Poly, Rat, S, Fn
+from ..qeval import QEval, ArrayV, VectorV, UnitV, NumV, DimError, R
+from ..source import norm, const_value, walk_no_nested, AnalysisError
+from . import coretypes as ct
+from .common import is_name, params, single_return, returns_of, bind_call
+from .vector_rules import (check_vector_forwarding, check_component_map, VECTOR, VBINOP, FORWARDED)
+
+EXPLANATION = (
+    "Static rules on core/vector.py: (R1) every Vector dunder forwards the same-named Array dunder to the lifting helper; "
+    "k*v, k/v, k+v, k-v evaluated in a rational quantity algebra; (R2) the lifting helper broadcasts numbers/ndarrays/"
+    "Quantities/Arrays to all components of the left operand, rejects a different component count before any component "
+    "operation, and applies the operator to every component; **, unary -, to, reshape, copy, indexing and the three numpy "
+    "dispatch cases iterate over all components; (R3) cross product, (R4) norm and (R5) dot are symbolically executed over "
+    "physical quantities (values x unit scale) with operands in compatible-but-different units and compared with the "
+    "determinant / Euclidean norm / scalar product as polynomial identities, including the unit of the result; "
+    "(R6) construction from Arrays validates shape and unit of every component.")
+NOT_DECIDED = "numeric laws of dot/cross for concrete floats (follow from R3/R5 + numpy); dtype and shape broadcasting"
+TRUSTED = ("CPython ast", "Array semantics as established by the C02 rules (conversion of the right operand)",
+           "polynomial normal form (sa/poly.py)")
+
+L1 = {"L": 1}
+U1 = UnitV(1, L1)            # e.g. m
+U2 = UnitV(S("K"), L1)       # compatible, different scale (K m)
+U3 = UnitV(S("J"), {"T": -1})  # incompatible dimension
 
 
-def not_implemented(run, tree):
-    run.rule("C09.R0", "stub")
-    run.unresolved("stub", "", "rules for C09 are not implemented yet")
+def vec(prefix, unit, n=3):
+    return VectorV({c: ArrayV(S(c + prefix), unit) for c in "xyz"[:n]})
 
 
-RULES = [not_implemented]
+def r1_forwarding(run, tree):
+    run.rule("C09.R1", "forwarding table: Vector dunder -> _binary_op('<same dunder>', self, other)", "sibling agreement",
+             "S4", floor=21)
+    check_vector_forwarding(run, tree, FORWARDED)
+    ct.check_composites(run, tree, ["__rmul__", "__rtruediv__", "__radd__", "__rsub__", "__invert__"], cls_qual=VECTOR)
+
+
+def r2_lifting(run, tree):
+    run.rule("C09.R2", "lifting shape: broadcast, component-count gate, every component", "path rule", "", floor=10)
+    fi = tree.func(VBINOP)
+    run.analysed(fi)
+    pn = params(fi)
+    OP, L, Rn = pn[0], pn[1], pn[2]
+    body = fi.node.body
+    # (a) broadcast of scalars/ndarrays/quantities
+    kinds_needed = {"int", "float", "numpy.ndarray", "pint.Quantity"}
+    got = set()
+    wraps = False
+    for n in walk_no_nested(fi.node):
+        if isinstance(n, ast.If) and isinstance(n.test, ast.Call) and is_name(n.test.func, "isinstance") and is_name(
+                n.test.args[0], Rn):
+            tnode = n.test.args[1]
+            names = set()
+            for e in (tnode.elts if isinstance(tnode, ast.Tuple) else [tnode]):
+                r = tree.resolve_expr(fi.module, e)
+                if isinstance(r, tuple) and r[0] == "ext":
+                    names.add(r[1])
+                elif hasattr(r, "qual"):
+                    names.add(r.qual)
+                else:
+                    names.add(norm(e))
+            if "core/array.py::Array" in names:
+                # broadcast of an Array to every component of lhs
+                ok = False
+                for st in n.body:
+                    if isinstance(st, ast.Assign) and is_name(st.targets[0], Rn) and isinstance(st.value, ast.Call):
+                        for k in st.value.keywords:
+                            if k.arg is None and isinstance(k.value, ast.DictComp):
+                                dc = k.value
+                                g = dc.generators[0]
+                                ok = (norm(g.iter) in ("%s._xyz.keys()" % L, "%s._xyz" % L) and not g.ifs and
+                                      is_name(dc.value, Rn) and norm(dc.key) == norm(g.target))
+                run.ob(VBINOP + "::broadcast-array", ok, fi.where(n), "an Array right operand is %s" % (
+                    "replicated for every component key of the left Vector" if ok else "not broadcast to all components"),
+                       "v * a multiplies only some components")
+            else:
+                got |= names
+                for st in n.body:
+                    if isinstance(st, ast.Assign) and is_name(st.targets[0], Rn) and isinstance(st.value, ast.Call) and \
+                            norm(st.value.func) == "Array":
+                        wraps = True
+    missing = kinds_needed - got
+    run.ob(VBINOP + "::broadcast-kinds", not missing and wraps, fi.where(),
+           "numbers/ndarrays/Quantities wrapped as Array: %s%s" % (sorted(got), "; missing %s" % sorted(missing) if missing else ""),
+           "v * 2.0 or v + Quantity raises AttributeError")
+    # (b) the component-count gate dominates the component operations
+    gate_idx, ret_idx = None, None
+    for i, st in enumerate(body):
+        if isinstance(st, ast.If) and isinstance(st.test, ast.Compare) and len(st.test.ops) == 1 and isinstance(
+                st.test.ops[0], ast.NotEq):
+            sides = {norm(st.test.left), norm(st.test.comparators[0])}
+            if sides == {"%s.nvec" % L, "%s.nvec" % Rn} and any(isinstance(s, ast.Raise) for s in st.body):
+                gate_idx = i
+        if isinstance(st, ast.Return):
+            ret_idx = i
+    run.ob(VBINOP + "::nvec-gate", gate_idx is not None and ret_idx is not None and gate_idx < ret_idx, fi.where(),
+           "component-count mismatch %s" % ("raises before any component operation" if gate_idx is not None else
+                                            "is not rejected"),
+           "a 3-vector plus a 2-vector silently drops or invents a component")
+    # (c) the result applies the operator to every component
+    ret = body[ret_idx].value if ret_idx is not None else None
+    ok = False
+    if isinstance(ret, ast.Call):
+        for k in ret.keywords:
+            if k.arg is None and isinstance(k.value, ast.DictComp):
+                dc = k.value
+                g = dc.generators[0]
+                if norm(g.iter) == "%s._xyz.items()" % L and not g.ifs and isinstance(g.target, ast.Tuple):
+                    kv, vv = g.target.elts[0].id, g.target.elts[1].id
+                    want = "getattr(%s, %s)(getattr(%s, %s))" % (vv, OP, Rn, kv)
+                    ok = norm(dc.value) == want and is_name(dc.key, kv)
+    run.ob(VBINOP + "::per-component", ok, fi.where(body[ret_idx]) if ret_idx is not None else fi.where(),
+           "result = %s" % (norm(ret)[:110] if ret is not None else "?"),
+           "an operator acts on a subset of the components or pairs x with y")
+    # (d) other component-wise methods
+    vi = tree.cls(VECTOR)
+    check_component_map(run, tree, tree.method(vi, "__pow__"), VECTOR + ".__pow__",
+                        lambda e, v, pn: isinstance(e, ast.BinOp) and isinstance(e.op, ast.Pow) and is_name(e.left, v)
+                        and is_name(e.right, pn[1]), "v ** k raises every component")
+    check_component_map(run, tree, tree.method(vi, "__neg__"), VECTOR + ".__neg__",
+                        lambda e, v, pn: isinstance(e, ast.UnaryOp) and isinstance(e.op, ast.USub) and is_name(e.operand, v),
+                        "-v negates every component")
+    check_component_map(run, tree, tree.method(vi, "to"), VECTOR + ".to",
+                        lambda e, v, pn: norm(e) == "%s.to(%s)" % (v, pn[1]), "v.to(u) converts every component to u")
+    check_component_map(run, tree, tree.method(vi, "reshape"), VECTOR + ".reshape",
+                        lambda e, v, pn: norm(e) == "%s.reshape(*%s)" % (v, tree.method(vi, "reshape").node.args.vararg.arg),
+                        "v.reshape reshapes every component")
+    check_component_map(run, tree, tree.method(vi, "__getitem__"), VECTOR + ".__getitem__",
+                        lambda e, v, pn: isinstance(e, ast.Subscript) and is_name(e.value, v) and is_name(e.slice, pn[1]),
+                        "v[idx] indexes every component with idx", need_name=True)
+    # numpy dispatch: every branch iterates over all components
+    fi = tree.method(vi, "_wrap_numpy")
+    run.analysed(fi)
+    n_branches = 0
+    for n in walk_no_nested(fi.node):
+        if isinstance(n, ast.Assign) and isinstance(n.value, ast.DictComp):
+            dc = n.value
+            g = dc.generators[0]
+            n_branches += 1
+            ok = norm(g.iter).endswith("._xyz.items()") and not g.ifs and len(dc.generators) == 1 and any(
+                isinstance(c, ast.Call) and is_name(c.func, params(fi)[1]) for c in ast.walk(dc.value))
+            run.ob("%s._wrap_numpy::branch%d" % (VECTOR, n_branches), ok, fi.where(n),
+                   "numpy dispatch case maps func over %s" % norm(g.iter), "np.<f>(v) ignores a component")
+    if n_branches < 3:
+        run.unresolved(VECTOR + "._wrap_numpy", fi.where(), "expected 3 dispatch cases, found %d" % n_branches)
+
+
+def _run_method(tree, qual, args, zero=None):
+    fi = tree.func(qual)
+    ev = QEval(tree, fi, dict(zero or {}))
+    return fi, ev, ev.call_function(fi, args, {})
+
+
+def r3_cross(run, tree):
+    run.rule("C09.R3", "cross product = determinant formula, as physical quantities", "D1 x D6 symbolic execution", "", floor=3)
+    for label, ub in (("same-unit", U1), ("compatible-different-units", U2), ("different-dimensions", U3)):
+        a, b = vec("1", U1), vec("2", ub)
+        construct = "%s.cross[%s]" % (VECTOR, label)
+        try:
+            fi, ev, out = _run_method(tree, VECTOR + ".cross", [a, b])
+        except (Unsupported, DimError) as e:
+            run.unresolved(construct, "core/vector.py", "cannot execute cross symbolically: %s" % e)
+            continue
+        run.analysed(fi)
+        if not isinstance(out, VectorV) or len(out.comps) != 3:
+            run.violated(construct, fi.where(), "cross returns %r" % (out,), "a x b")
+            continue
+        x1, y1, z1, x2, y2, z2 = (R(S(n)) for n in ("x1", "y1", "z1", "x2", "y2", "z2"))
+        k = ub.scale
+        want = {"x": (y1 * z2 - z1 * y2) * k, "y": (z1 * x2 - x1 * z2) * k, "z": (x1 * y2 - y1 * x2) * k}
+        wdim = (U1 * ub).dim
+        bad = []
+        for c in "xyz":
+            got = out.comps[c]
+            if not (got.phys() == want[c]):
+                bad.append("%s = %r, required %r" % (c, got.phys(), want[c]))
+            if got.unit.dim != wdim:
+                bad.append("%s has dimension %r, required %r" % (c, got.unit.dim, wdim))
+        run.ob(construct, not bad, fi.where(), "; ".join(bad) or "components equal the determinant with unit product",
+               "a x b for a in m and b in %s: antisymmetry / a.(a x b)=0 fail" % (
+                   "m" if label == "same-unit" else "cm" if label.startswith("compat") else "1/s"))
+
+
+def r4_norm(run, tree):
+    run.rule("C09.R4", "norm = sqrt(sum of squared components) in the component unit", "D1 symbolic execution", "", floor=3)
+    for n in (1, 2, 3):
+        a = vec("1", U2, n)
+        construct = "%s.norm[nvec=%d]" % (VECTOR, n)
+        try:
+            fi, ev, out = _run_method(tree, VECTOR + ".norm", [a])
+        except (Unsupported, DimError) as e:
+            run.unresolved(construct, "core/vector.py", "cannot execute norm symbolically: %s" % e)
+            continue
+        run.analysed(fi)
+        comps = [R(S(c + "1")) for c in "xyz"[:n]]
+        if n == 1:
+            ok = isinstance(out, ArrayV) and out.fn is None and out.vals == comps[0] and out.unit.same(U2)
+            if not ok and isinstance(out, ArrayV) and out.fn is not None:
+                ok = out.fn == Fn("sqrt", comps[0] * comps[0]) and out.unit.same(U2)
+            run.ob(construct, ok, fi.where(), "norm of a 1-component vector = %r" % (out,), "|v| for a 1-D vector")
+            continue
+        tot = R(0)
+        for c in comps:
+            tot = tot + c * c
+        ok = isinstance(out, ArrayV) and out.fn == Fn("sqrt", tot) and out.unit.same(U2)
+        run.ob(construct, ok, fi.where(), "norm = %r (required sqrt(%r) in the unit of the components)" % (out, tot),
+               "|v| misses a component or carries the wrong unit")
+
+
+def r5_dot(run, tree):
+    run.rule("C09.R5", "dot product = sum of component products as physical quantities; unit provenance", "D1 x D6", "",
+             floor=5)
+    for label, ub, n in (("same-unit", U1, 3), ("compatible-different-units", U2, 3), ("different-dimensions", U3, 3),
+                         ("compatible-different-units,nvec=2", U2, 2), ("compatible-different-units,nvec=1", U2, 1)):
+        a, b = vec("1", U1, n), vec("2", ub, n)
+        construct = "%s.dot[%s]" % (VECTOR, label)
+        try:
+            fi, ev, out = _run_method(tree, VECTOR + ".dot", [a, b])
+        except (Unsupported, DimError) as e:
+            run.unresolved(construct, "core/vector.py", "cannot execute dot symbolically: %s" % e)
+            continue
+        run.analysed(fi)
+        want = R(0)
+        for c in "xyz"[:n]:
+            want = want + R(S(c + "1")) * R(S(c + "2"))
+        want = want * ub.scale
+        wdim = (U1 * ub).dim
+        if not isinstance(out, ArrayV) or out.fn is not None:
+            run.violated(construct, fi.where(), "dot returns %r" % (out,), "a . b")
+            continue
+        bad = []
+        if not (out.phys() == want):
+            bad.append("physical value %r, required %r (values %r labelled with scale %r)" % (
+                out.phys(), want, out.vals, out.unit.scale))
+        if out.unit.dim != wdim:
+            bad.append("dimension %r, required %r" % (out.unit.dim, wdim))
+        run.ob(construct, not bad, fi.where(), "; ".join(bad) or "sum of products with the unit of the products",
+               "(1,2,3) m . (100,200,300) cm: numbers computed in one unit and labelled with another")
+
+
+def r6_construction(run, tree):
+    run.rule("C09.R6", "construction from Arrays validates the shape and unit of every component", "path rule", "", floor=3)
+    vi = tree.cls(VECTOR)
+    init = tree.method(vi, "__init__")
+    val = tree.method(vi, "_validate_component")
+    run.analysed(init)
+    pn = params(init)
+    X, Y, Z = pn[1], pn[2], pn[3]
+    validated = set()
+    for n in walk_no_nested(init.node):
+        if isinstance(n, ast.If) and isinstance(n.test, ast.Call) and is_name(n.test.func, "isinstance") and is_name(
+                n.test.args[0], X):
+            for st in n.body:
+                if isinstance(st, ast.Assign) and isinstance(st.value, ast.Call) and isinstance(st.value.func, ast.Attribute) \
+                        and st.value.func.attr == "_validate_component" and st.value.args and \
+                        is_name(st.value.args[0], st.targets[0].id if isinstance(st.targets[0], ast.Name) else ""):
+                    a = st.value.args
+                    if len(a) == 3 and norm(a[1]) == "%s.shape" % X and is_name(a[2], "unit"):
+                        validated.add(st.targets[0].id)
+    run.ob(VECTOR + ".__init__::components-validated", validated == {Y, Z}, init.where(),
+           "components validated against x: %s" % sorted(validated), "Vector(x_in_m, y_in_cm) or mismatched shapes accepted")
+    if val is None:
+        run.violated(VECTOR + "._validate_component", vi.module.rel, "validator missing", "Vector(x_in_m, y_in_cm)")
+        return
+    run.analysed(val)
+    vp = params(val)
+    seen = {"shape": False, "unit": False}
+    for path in enumerate_paths(val.node.body):
+        if path[-1][1] != "raise":
+            continue
+        for it in path:
+            if it[0] == "test" and it[2] is True and isinstance(it[1], ast.Compare) and isinstance(it[1].ops[0], ast.NotEq):
+                sides = {norm(it[1].left), norm(it[1].comparators[0])}
+                if sides == {"%s.shape" % vp[1], vp[2]}:
+                    seen["shape"] = True
+                if sides == {"%s.unit" % vp[1], vp[3]}:
+                    seen["unit"] = True
+    run.ob(VECTOR + "._validate_component::shape", seen["shape"], val.where(), "shape mismatch %s" % (
+        "raises" if seen["shape"] else "is not rejected"), "components of different lengths")
+    run.ob(VECTOR + "._validate_component::unit", seen["unit"], val.where(), "unit mismatch %s" % (
+        "raises" if seen["unit"] else "is not rejected"), "components in different units share one label")
+    # the unit setter propagates to all components
+    us = vi.methods.get("unit.setter")
+    if us is not None:
+        src = " ".join(norm(s) for s in us.node.body)
+        ok = all(("%s.%s.unit = " % (params(us)[0], c)) in src for c in "xyz")
+        run.ob(VECTOR + ".unit.setter", ok, us.where(), "unit setter assigns %s" % ("all three components" if ok else src[:80]),
+               "v.unit = u relabels only some components")
+
+
+RULES = [r1_forwarding, r2_lifting, r3_cross, r4_norm, r5_dot, r6_construction]
